@@ -56,21 +56,21 @@ func specEncValid(e *Encoding, fitsSigned8 bool) bool {
 //@ ensures[size] result0 == specEncBytes(e)
 
 //@ func findBestEncodingForSignExtendable
-//@ props C18
+//@ props C18 C01
 //@ requires a != nil && b != nil && operands != nil
 //@ requires specEncWF(a) && specEncWF(b)
 //@ ensures[sound]    result0 ==> specEncValid(a, operands.ImmediateValueFitsInSigned8Bits()) && (!specEncValid(b, operands.ImmediateValueFitsInSigned8Bits()) || specEncBytes(a) <= specEncBytes(b))
 //@ ensures[complete] specEncValid(a, operands.ImmediateValueFitsInSigned8Bits()) && (!specEncValid(b, operands.ImmediateValueFitsInSigned8Bits()) || specEncBytes(a) < specEncBytes(b)) ==> result0
 
 //@ func findBestEncodingForNonSignExtendable
-//@ props C18
+//@ props C18 C01
 //@ requires a != nil && b != nil
 //@ requires specEncWF(a) && specEncWF(b)
 //@ ensures[sound]    result0 ==> specEncBytes(a) <= specEncBytes(b)
 //@ ensures[complete] specEncBytes(a) < specEncBytes(b) ==> result0
 
 //@ func isSignExtendable
-//@ props C18
+//@ props C18 C01
 //@ ensures[set] result0 == specALUGroup(strings.ToUpper(opcode))
 
 // specALUGroup: the mnemonics that have the sign-extended imm8 form 83 /digit ib.
